@@ -236,6 +236,12 @@ def run(chk):
     for s, o in list(zip(scns, obss))[:3]:
         chk.sample({"mode": s["mode"], "strategy": s["strategy"], "answers": s["answers"],
                     "plan": [(e["dir"], e["rel"], e["r"]) for e in s["plan"]][:4], "status": o["status"], "report": o["report"][:3]})
+    # the whole-program model (Whole/*.v), on which this property's whole-program theorems rest, against the real command line
+    import whole as _whole
+    import random as _random
+    _ws = {}
+    _whole.whole_stream(chk, _random.Random(chk.seed * 7919 + 4), 60 if chk.tier == "quick" else 2500, _ws)
+    chk.notes["whole_program_tie"] = _ws
     chk.coverage["rule"] = (
         "(a) generated trees x injected plans x mode x every strategy incl. override and scripted manual answers, all with --dry-run, "
         "through the real tempren.cli.main(): no traced filesystem call, no open() for writing, strict lstat+content snapshot "
